@@ -573,7 +573,7 @@ def _pgq_clauses():
         # a request that reaches execution, or is answered with validation errors, has been validated by THIS call with the request's validators
         if "execute" in p.events or (p.outcome == "return" and "parse" in p.events and _results(p) and "execute" not in p.events and "validation+" in p.events):
             v = [e for e in p.events if e.startswith("validate")]
-            return len(v) == 1 and v[0] == "validate(validators=validators)" and ("execute" not in p.events or p.events.index(v[0]) < p.events.index("execute"))
+            return len(v) == 1 and __import__("re").search(r"[(,]validators=validators[,)]", v[0]) is not None and ("execute" not in p.events or p.events.index(v[0]) < p.events.index("execute"))
         return None
 
     return [
